@@ -209,15 +209,15 @@ class Representation:
         if simple is None:
             simple = self.parse_simple
 
-        if simple:
+        if simple or not isinstance(word, str):
             return word
 
-        return re.split("[()*]", word)
+        return [gen for gen in re.split("[()*]", word) if gen != ""]
 
     def __getitem__(self, word):
         return self.element(word)
 
-    def element(self, word, parse_simple=True):
+    def element(self, word, parse_simple=None):
         matrix = self._word_value(word, parse_simple)
         return self.__class__.wrap_func(matrix)
 
